@@ -592,7 +592,7 @@ def gen_exact(rng):
         if n and rng.random() < 0.5:
             # AtomArrayStack with per-model boxes: every model must be repeated with ITS coordinates and ITS box
             m = rng.choice([2, 2, 3])
-            ops.append(f"rbox f32 {enc_arr(_arr(rng, (m, n)))} {enc_box([_box_for(rng, 'f32')[0] for _ in range(m)])} {rng.choice(['-', '1', '0'])}")
+            ops.append(f"rbox f32 {enc_arr(_arr(rng, (m, n)))} {enc_box([_box_for(rng, 'f32')[0] for _ in range(m)])} {rng.choice(['-', '1', '0', '2'])}")
     elif r < 0.93:
         kind = "remove_pbc"
         boxarg = _box_for(rng, dt)[0]
@@ -604,6 +604,16 @@ def gen_exact(rng):
         order = _layout(rng, sizes, rng.choice(["contiguous", "by-position", "by-position", "merge"]))
         a = [walks[m][j] for m, j in order]
         mols = [[i for i, (m_, _j) in enumerate(order) if m_ == m] for m in range(len(sizes))]
+        if rng.random() < 0.4:
+            # non-default `selection`: per molecule all / none / half of the atoms (counts stay powers of two: exact centroids)
+            sel = [0] * len(a)
+            for mm in mols:
+                pick = rng.choice(["all", "none", "half"])
+                chosen = mm if pick == "all" else [] if pick == "none" else rng.sample(mm, len(mm) // 2 if len(mm) > 1 else 1)
+                for i in chosen:
+                    sel[i] = 1
+            ops.append(f"rpbcmol {dt} {enc_arr(a)} {enc_box(boxarg)} {';'.join(','.join(str(i) for i in mm) for mm in mols)} "
+                       + "".join(str(x) for x in sel))
         ops.append(f"rpbcmol {dt} {enc_arr(a)} {enc_box(boxarg)} {';'.join(','.join(str(i) for i in mm) for mm in mols)}")
     else:
         kind = "box"
@@ -716,9 +726,31 @@ def run_impl(case):
             with warnings.catch_warnings():
                 warnings.simplefilter("ignore")
                 out.append(_run_op(np, struc, w))
+        except ChildCrash:
+            out.append("CRASH")
         except Exception as e:  # noqa: BLE001
             out.append(_err(e))
     return out
+
+
+class ChildCrash(Exception):
+    """the forked child running code under test died / hung"""
+
+
+def _forked(fn):
+    from common import sandbox
+    r = sandbox.run_forked(fn, timeout=60)
+    if r[0] == "ok":
+        return r[1]
+    if r[0] == "err":
+        import builtins
+
+        import numpy as np
+        cls = getattr(builtins, r[1], None) or getattr(np.linalg, r[1], None)
+        if cls is None or not (isinstance(cls, type) and issubclass(cls, BaseException)):
+            cls = type(r[1], (Exception,), {})
+        raise cls(r[2])
+    raise ChildCrash(f"{r[0]} {r[1:] if len(r) > 1 else ''}")
 
 
 def _npbox(np, b, dt):
@@ -796,7 +828,9 @@ def _run_op(np, struc, w):
         atoms.box = b
         bonds = [(mm[i], mm[i + 1], 1) for mm in mols for i in range(len(mm) - 1)]
         atoms.bonds = struc.BondList(len(a), np.array(bonds, dtype=np.uint32).reshape(-1, 3))
-        return "ok " + out_arr(struc.remove_pbc(atoms).coord)
+        sel = None if len(w) < 6 else np.array([c == "1" for c in w[5]], dtype=bool)
+        # remove_pbc walks the bond graph in a compiled extension: a dead child is a verdict, not a dead check
+        return "ok " + out_arr(_forked(lambda: struc.remove_pbc(atoms, sel).coord))
     if name == "orth":
         r = struc.is_orthogonal(_npbox(np, dec_box(w[1]), "float64"))
         return "ok " + (("T" if r else "F") if np.ndim(r) == 0 else ",".join("T" if x else "F" for x in r))
@@ -902,13 +936,21 @@ def gen_float(rng):
     r = rng.random()
     dt = rng.choice(["f32", "f32", "f64"])
     seed = rng.getrandbits(48)
-    if r < 0.035:
-        return _gen_seq(rng, seed)
+    if r < 0.02:
+        return {"kind": "f-state", "seed": seed}
+    if r < 0.04:
+        return {"kind": "f-refuse", "seed": seed}
     if r < 0.07:
+        return {"kind": "f-spell", "seed": seed}
+    if r < 0.10:
+        return {"kind": "f-misc", "seed": seed, "what": rng.choice(["orient", "orient", "util", "backbone", "backbone", "centroid"])}
+    if r < 0.125:
+        return _gen_seq(rng, seed)
+    if r < 0.15:
         return _gen_pmeasure(rng, seed)
-    if r < 0.13:
-        return _gen_transform(rng, seed)
     if r < 0.20:
+        return _gen_transform(rng, seed)
+    if r < 0.26:
         # index variants on AtomArray / AtomArrayStack objects that carry their own box
         n = rng.choice([5, 8, 12])
         m = rng.choice([0, 0, 2, 3])
@@ -1012,8 +1054,18 @@ def gen_float(rng):
                          "shift": [[rng.randint(-1, 1) for _ in range(3)] for _ in range(n)] if rng.random() < 0.5 else [[0, 0, 0]] * n,
                          "stretch": 1.0})
         layout = rng.choice(["by-position", "by-position", "merge"])
-    return {"kind": "f-rpbc", "dt": dt, "boxkind": kind, "box": box, "mols": mols, "layout": layout,
+    case = {"kind": "f-rpbc", "dt": dt, "boxkind": kind, "box": box, "mols": mols, "layout": layout,
             "layout_seed": rng.getrandbits(32), "wrap": rng.choice(["shift", "shift", "inside"]), "seed": seed}
+    # the less-used ways in: a `selection`, no BondList (molecules = chains), an AtomArrayStack with per-model boxes
+    opt = rng.random()
+    if opt < 0.2:
+        case["selection_p"] = rng.choice([0.0, 0.5, 0.8, 1.0])
+    elif opt < 0.3:
+        case["no_bonds"] = True
+        case["layout"] = "contiguous"
+    elif opt < 0.45:
+        case["models"] = rng.choice([2, 3])
+    return case
 
 
 def _heights_f(box):
@@ -1264,7 +1316,7 @@ def oracle(case):
         warnings.simplefilter("ignore")
         k = case.get("kind", "")
         if k.startswith("f-"):
-            return {"f-geom": _o_geom, "f-seq": _o_seq, "f-index": _o_index, "f-pmeasure": _o_pmeasure, "f-transform": _o_transform, "f-pbc": _o_pbc, "f-move": _o_move, "f-unitcell": _o_unitcell, "f-rpbc": _o_rpbc}[k](case)
+            return {"f-geom": _o_geom, "f-state": _o_state, "f-refuse": _o_refuse, "f-spell": _o_spell, "f-misc": _o_misc, "f-seq": _o_seq, "f-index": _o_index, "f-pmeasure": _o_pmeasure, "f-transform": _o_transform, "f-pbc": _o_pbc, "f-move": _o_move, "f-unitcell": _o_unitcell, "f-rpbc": _o_rpbc}[k](case)
         return _o_exact(case)
 
 
@@ -1383,13 +1435,22 @@ def _o_exact(case):
                 atoms = _mk_atoms(np, struc, a, b)
                 bl = [(mm[i], mm[i + 1], 1) for mm in mols for i in range(len(mm) - 1)]
                 atoms.bonds = struc.BondList(len(a), np.array(bl, dtype=np.uint32).reshape(-1, 3))
+                sel = None if len(w) < 6 else np.array([c == "1" for c in w[5]], dtype=bool)
                 try:
-                    res = struc.remove_pbc(atoms).coord
+                    res = _forked(lambda: struc.remove_pbc(atoms, sel).coord)
+                except ChildCrash as e:
+                    v.append(("C15/remove_pbc/crash", f"op `{op}`: {e}"))
+                    continue
                 except Exception:
                     continue
                 bx = _box_exact(b)
                 ea, er = _exact(a), _exact(res)
                 contiguous = all(mm == list(range(mm[0], mm[0] + len(mm))) for mm in mols)
+                if sel is not None:
+                    if any(ea[i] != er[i] for i in range(len(ea)) if not sel[i]):
+                        v.append(("C15/remove_pbc/unselected-atom-moved", f"op `{op}`"))
+                    mols = [[i for i in mm if sel[i]] for mm in mols]
+                    mols = [mm for mm in mols if mm]
                 for mm in mols:
                     vv = _check_rpbc([ea[i] for i in mm], [er[i] for i in mm], bx, [(k, k + 1) for k in range(len(mm) - 1)], 0.0,
                                      f"op `{op}` molecule {mm}", array_adjacent=False, adj_ok=True)
@@ -1756,6 +1817,470 @@ def _o_seq(case):
     return v
 
 
+# ---- hardening streams: everything below is derived from the case seed ------------------------------------------
+def _rand_system(r, n=None, stack=False):
+    """(coords float32 (n,3) or (m,n,3), box float32, bonds) — a compact molecule near a random place of a random box"""
+    import numpy as np
+    kind, box = _float_box(r)
+    n = n or r.choice([4, 6, 9])
+    coords, bonds = _molecule(r, n)
+    centre = [sum(r.uniform(-1, 2) * box[r_][i] for r_ in range(3)) for i in range(3)]
+    c = np.array([[x[k] + centre[k] for k in range(3)] for x in coords], dtype=np.float32)
+    if stack:
+        c = np.stack([c, c[::-1].copy() + np.float32(0.5), c * np.float32(1.01)])
+    return c, np.array(box, dtype=np.float32), bonds
+
+
+def _atoms_with(np, struc, coord, box, bonds):
+    atoms = _mk_atoms(np, struc, coord, box)
+    n = coord.shape[-2]
+    atoms.bonds = struc.BondList(n, np.array([[a_, b_, 1] for a_, b_ in bonds], dtype=np.uint32).reshape(-1, 3))
+    return atoms
+
+
+def _same(np, x, y, tol=0.0):
+    x, y = np.asarray(x), np.asarray(y)
+    if x.shape != y.shape:
+        return False
+    if tol == 0.0:
+        return bool(np.array_equal(x, y, equal_nan=True))
+    return bool(np.allclose(x.astype(float), y.astype(float), rtol=tol, atol=tol, equal_nan=True))
+
+
+def _o_state(case):
+    """ONE AtomArray / AtomArrayStack object is reused: read, change in place (coordinates, box, bonds, another size),
+    read again; every read must equal the read on a FRESH object built from the same content."""
+    import random as _random
+
+    import numpy as np
+
+    import biotite.structure as struc
+    r = _random.Random(case["seed"])
+    stack = r.random() < 0.4
+    coord, box, bonds = _rand_system(r, stack=stack)
+    n = coord.shape[-2]
+    atoms = _atoms_with(np, struc, coord.copy(), box.copy(), bonds)
+    idx = np.array([[i, (i + 1) % n, (i + 2) % n, (i + 3) % n] for i in range(n)])
+    reads = {
+        "remove_pbc": lambda a: struc.remove_pbc(a).coord,
+        "index_distance(periodic)": lambda a: struc.index_distance(a, idx[:, :2], periodic=True),
+        "index_dihedral(periodic)": lambda a: struc.index_dihedral(a, idx, periodic=True),
+        "repeat_box": lambda a: struc.repeat_box(a)[0].coord,
+        "move_inside_box": lambda a: struc.move_inside_box(a.coord, a.box),
+        "centroid": lambda a: struc.centroid(a),
+        "coord_to_fraction": lambda a: struc.coord_to_fraction(a.coord, a.box),
+        "distance(box)": lambda a: struc.distance(a.coord[..., 0, :], a.coord[..., 1, :], a.box) if not stack else struc.distance(a[0].coord[0], a[0].coord[1], a.box[0]),
+    }
+    changes = ["coord-in-place", "box-scale-in-place", "box-skew-in-place", "bond-added", "bond-removed", "coord-assigned", "smaller"]
+    history = ["initial"]
+    for step in range(r.choice([2, 3, 4])):
+        if step:
+            how = r.choice(changes)
+            history.append(how)
+            if how == "coord-in-place":
+                atoms.coord += np.float32(r.uniform(-30, 30))
+            elif how == "coord-assigned":
+                atoms.coord = (atoms.coord[..., ::-1, :] * np.float32(0.9)).copy()
+            elif how == "box-scale-in-place":
+                atoms.box *= np.float32(r.choice([0.5, 1.5, 2.0]))
+            elif how == "box-skew-in-place":
+                atoms.box[..., 2, :] += np.float32(0.3) * atoms.box[..., 0, :]
+            elif how == "bond-added":
+                i, j = r.sample(range(atoms.array_length()), 2)
+                atoms.bonds.add_bond(i, j, 1)
+            elif how == "bond-removed":
+                ba = atoms.bonds.as_array()
+                if len(ba):
+                    k = r.randrange(len(ba))
+                    atoms.bonds.remove_bond(int(ba[k][0]), int(ba[k][1]))
+            else:
+                if atoms.array_length() > 4:
+                    atoms = atoms[..., : atoms.array_length() - 1]      # another size
+                    n = atoms.array_length()
+                    idx = np.array([[i, (i + 1) % n, (i + 2) % n, (i + 3) % n] for i in range(n)])
+        names = r.sample(sorted(reads), 3)
+        for name in names:
+            fresh = _atoms_with(np, struc, atoms.coord.copy(), atoms.box.copy(), [(int(a_), int(b_)) for a_, b_, _ in atoms.bonds.as_array()])
+            with np.errstate(all="ignore"):
+                got = np.asarray(reads[name](atoms))
+                want = np.asarray(reads[name](fresh))
+            if not _same(np, got, want):
+                return [(f"C15/{name.split('(')[0]}/reused-object-differs-from-fresh-object",
+                         f"{'stack' if stack else 'array'}, history {' -> '.join(history)}: {name} on the reused object differs from a fresh object of equal content")]
+    return []
+
+
+def _o_refuse(case):
+    """A refused call changes nothing: after every exception the arguments equal their snapshots and the next valid
+    call gives the result of a fresh call."""
+    import random as _random
+
+    import numpy as np
+
+    import biotite.structure as struc
+    r = _random.Random(case["seed"])
+    stack = r.random() < 0.3
+    coord, box, bonds = _rand_system(r, stack=stack)
+    n = coord.shape[-2]
+    atoms = _atoms_with(np, struc, coord.copy(), box.copy(), bonds)
+    nobox = _atoms_with(np, struc, coord.copy(), None, bonds)
+    sing = box.copy()
+    sing[..., 2, :] = 0          # exactly singular also in floating point: LAPACK meets a zero pivot
+    idx = np.array([[0, 1], [1, 2]])
+    bad_idx = np.array([[0, n + r.choice([0, 1, 5])], [1, 2]])
+    c2 = coord if not stack else coord[0]
+    refused = [
+        ("displacement/singular-box", (np.linalg.LinAlgError,), lambda: struc.displacement(coord, coord[..., ::-1, :], sing)),
+        ("move_inside_box/singular-box", (np.linalg.LinAlgError,), lambda: struc.move_inside_box(coord, sing)),
+        ("coord_to_fraction/singular-box", (np.linalg.LinAlgError,), lambda: struc.coord_to_fraction(coord, sing)),
+        ("index_distance/index-out-of-range", (IndexError,), lambda: struc.index_distance(atoms, bad_idx, periodic=True)),
+        ("index_angle/wrong-width", (ValueError,), lambda: struc.index_angle(atoms, idx)),
+        ("index_dihedral/periodic-without-box", (ValueError,), lambda: struc.index_dihedral(coord, np.array([[0, 1, 2, 3]]), periodic=True)),
+        ("displacement/shape-mismatch", (ValueError,), lambda: struc.displacement(c2[:2], c2[:3], box)),
+        ("repeat_box/no-box", (struc.BadStructureError,), lambda: struc.repeat_box(nobox)),
+        ("remove_pbc/no-box", (struc.BadStructureError,), lambda: struc.remove_pbc(nobox)),
+        ("repeat_box_coord/non-integer-amount", (TypeError,), lambda: struc.repeat_box_coord(coord, box, 1.5)),
+        ("align_vectors/antiparallel", (ValueError,), lambda: struc.align_vectors(atoms, [1, 2, 2], [-2, -4, -4])),
+        ("align_vectors/zero-vector", (ValueError,), lambda: struc.align_vectors(atoms, [0, 0, 0], [1, 0, 0])),
+        ("rotate_about_axis/zero-axis", (ValueError,), lambda: struc.rotate_about_axis(atoms, [0, 0, 0], 1.0)),
+        ("rotate/two-angles", (ValueError,), lambda: struc.rotate(atoms, [0.1, 0.2])),
+        ("translate/wrong-vector", (ValueError,), lambda: struc.translate(atoms, [1.0, 2.0])),
+        ("orient_principal_components/bad-order", (ValueError,), lambda: struc.orient_principal_components(c2, order=(0, 0, 1))),
+        ("orient_principal_components/too-few-atoms", (ValueError,), lambda: struc.orient_principal_components(c2[:2])),
+    ]
+    valid = [
+        ("remove_pbc", lambda a, c, b: struc.remove_pbc(a).coord),
+        ("index_distance", lambda a, c, b: struc.index_distance(a, idx, periodic=True)),
+        ("displacement", lambda a, c, b: struc.displacement(c, c[..., ::-1, :], b)),
+        ("move_inside_box", lambda a, c, b: struc.move_inside_box(c, b)),
+        ("rotate_about_axis", lambda a, c, b: struc.rotate_about_axis(a, [1, 2, 3], 0.7).coord),
+        ("repeat_box", lambda a, c, b: struc.repeat_box(a)[0].coord),
+    ]
+    v = []
+    for name, excs, call in r.sample(refused, 5):
+        snaps = [x.copy() for x in (coord, box, sing, atoms.coord, atoms.box, nobox.coord, bad_idx, idx)]
+        bonds_snap = atoms.bonds.as_array().copy()
+        try:
+            with np.errstate(all="ignore"):
+                call()
+            v.append((f"C15/{name}/accepted", "the call is documented to be rejected but returned a result"))
+            continue
+        except excs:
+            pass
+        except Exception as e:  # noqa: BLE001
+            v.append((f"C15/{name}/unexpected-exception", f"{type(e).__name__}: {e}"))
+            continue
+        now = (coord, box, sing, atoms.coord, atoms.box, nobox.coord, bad_idx, idx)
+        if not all(np.array_equal(x, y) for x, y in zip(snaps, now)) or not np.array_equal(bonds_snap, atoms.bonds.as_array()):
+            v.append((f"C15/{name}/refused-call-changed-its-arguments", "an argument differs from its snapshot after the exception"))
+            continue
+        vname, vcall = r.choice(valid)
+        fresh = _atoms_with(np, struc, coord.copy(), box.copy(), bonds)
+        with np.errstate(all="ignore"):
+            got, want = np.asarray(vcall(atoms, coord, box)), np.asarray(vcall(fresh, coord.copy(), box.copy()))
+        if not _same(np, got, want):
+            v.append((f"C15/{name}/next-valid-call-differs-after-refusal", f"{vname} after the refused call differs from a fresh call"))
+    return v
+
+
+def _o_spell(case):
+    """The same values in another spelling (memory layout, byte order, read-only, list / tuple, float64 copies of
+    float32 values, NumPy scalars of several widths, integer dtypes of index arrays) give the same result."""
+    import random as _random
+
+    import numpy as np
+
+    import biotite.structure as struc
+    r = _random.Random(case["seed"])
+    stack = r.random() < 0.3
+    coord, box, bonds = _rand_system(r, stack=stack)
+    n = coord.shape[-2]
+    c2 = coord if not stack else coord[0]
+    b2 = box
+    idx = np.array([[i, (i + 1) % n, (i + 2) % n, (i + 3) % n] for i in range(n)] + [[-1, 0, 1, 2]])
+
+    def arr_spellings(a, lists=True):
+        a = np.asarray(a)
+        big = np.zeros(tuple(2 * d for d in a.shape), dtype=a.dtype)
+        sl = tuple(slice(None, None, 2) for _ in a.shape)
+        big[sl] = a
+        ro = a.copy()
+        ro.setflags(write=False)
+        out = {"fortran-order": np.asfortranarray(a), "strided-view": big[sl], "read-only": ro,
+               "byte-swapped": a.astype(a.dtype.newbyteorder(">")), "float64": a.astype(np.float64) if a.dtype.kind == "f" else a.astype(np.int64)}
+        if lists:
+            out["list"] = a.tolist()
+            out["tuple"] = tuple(map(tuple, a.tolist())) if a.ndim == 2 else a.tolist()
+        return out
+    amount = case.get("amount", r.choice([0, 1, 2]))
+    ang = float(np.float32(r.uniform(-3, 3)))
+    rev = coord[..., ::-1, :].copy()
+    fns = [
+        ("displacement", True, lambda c, b, i: struc.displacement(c, rev, b)),
+        ("distance", True, lambda c, b, i: struc.distance(rev, c, b)),
+        ("move_inside_box", False, lambda c, b, i: struc.move_inside_box(np.asarray(c), b)),
+        ("coord_to_fraction", False, lambda c, b, i: struc.coord_to_fraction(np.asarray(c), b)),
+        ("remove_pbc_from_coord", False, lambda c, b, i: struc.remove_pbc_from_coord(np.asarray(c), b)),
+        ("index_distance", False, lambda c, b, i: struc.index_distance(c, i[:, :2], periodic=True, box=b)),
+        ("index_angle", False, lambda c, b, i: struc.index_angle(c, i[:, :3], periodic=True, box=b)),
+        ("index_dihedral", False, lambda c, b, i: struc.index_dihedral(c, i, periodic=True, box=b)),
+        ("is_orthogonal", False, lambda c, b, i: struc.is_orthogonal(b)),
+        ("box_volume", False, lambda c, b, i: struc.box_volume(b)),
+        ("unitcell_from_vectors", False, lambda c, b, i: np.array(struc.unitcell_from_vectors(b), dtype=float)),
+        ("centroid", True, lambda c, b, i: struc.centroid(c)),
+        ("translate", True, lambda c, b, i: struc.translate(c, [1.5, -2.0, 0.25])),
+        ("rotate_about_axis", True, lambda c, b, i: struc.rotate_about_axis(c, [1, 2, 3], ang)),
+    ]
+    v = []
+    tol = 2e-5          # layouts may change the summation order of BLAS by an ulp; float64 copies run in double precision
+    for name, lists_ok, fn in r.sample(fns, 5):
+        use_c, use_b = (c2, b2) if name in ("unitcell_from_vectors",) else (coord, box)
+        if name in ("index_distance", "index_angle", "index_dihedral", "remove_pbc_from_coord") and stack:
+            pass
+        with np.errstate(all="ignore"):
+            base = np.asarray(fn(use_c, use_b, idx))
+        which = r.choice(["coord", "box", "idx"]) if name.startswith("index_") else r.choice(["coord", "box"])
+        if name in ("is_orthogonal", "box_volume", "unitcell_from_vectors"):
+            which = "box"
+        if name in ("centroid", "translate", "rotate_about_axis"):
+            which = "coord"
+        if which == "coord":
+            sp = arr_spellings(use_c, lists=lists_ok and not stack)
+        elif which == "box":
+            sp = arr_spellings(use_b, lists=False)
+        else:
+            sp = {f"indices-{d}": idx.astype(d) for d in ("int8", "int16", "int32", "int64")}
+            sp["indices-fortran"] = np.asfortranarray(idx)
+            sp["indices-read-only"] = idx.copy()
+            sp["indices-read-only"].setflags(write=False)
+            pos = np.where(idx < 0, idx + n, idx)
+            sp["indices-non-negative-uint8"] = pos.astype(np.uint8)
+        if name == "is_orthogonal":
+            sp.pop("float64", None)      # a threshold test: double precision dot products may fall on the other side of 1e-6
+        label, alt = r.choice(sorted(sp.items(), key=lambda kv: kv[0]))
+        try:
+            with np.errstate(all="ignore"):
+                if which == "coord":
+                    got = np.asarray(fn(alt, use_b, idx))
+                elif which == "box":
+                    got = np.asarray(fn(use_c, alt, idx))
+                else:
+                    got = np.asarray(fn(use_c, use_b, alt))
+        except Exception as e:  # noqa: BLE001
+            v.append((f"C15/{name}/rejects-{which}-as-{label}", f"{type(e).__name__}: {e}"))
+            continue
+        if not _same(np, got, base, tol):
+            v.append((f"C15/{name}/result-depends-on-spelling-of-{which}", f"{which} as {label}: {np.asarray(got).reshape(-1)[:4].tolist()} vs {np.asarray(base).reshape(-1)[:4].tolist()}"))
+    # scalar spellings: `amount`
+    with np.errstate(all="ignore"):
+        base = struc.repeat_box_coord(c2, b2, amount)[0]
+        for sc in (np.int8(amount), np.int16(amount), np.int64(amount), np.uint8(amount), np.uint64(amount)):
+            try:
+                got = struc.repeat_box_coord(c2, b2, sc)[0]
+                at = _atoms_with(np, struc, c2.copy(), (b2).copy(), bonds)
+                got2 = struc.repeat_box(at, sc)[0].coord
+            except Exception as e:  # noqa: BLE001
+                v.append((f"C15/repeat_box/rejects-amount-as-{type(sc).__name__}", f"{type(e).__name__}: {e}"))
+                continue
+            if not (_same(np, got, base) and _same(np, got2, base)):
+                v.append((f"C15/repeat_box/result-depends-on-spelling-of-amount", f"amount = {amount} as {type(sc).__name__}: {len(got)} / {len(got2)} coordinates, {len(base)} with a Python int"))
+        # angle as NumPy scalars (the value is a float32 number, so every spelling denotes the same angle)
+        base = struc.rotate_about_axis(c2, [1, 2, 3], ang)
+        for sc in (np.float32(ang), np.float64(ang)):
+            got = struc.rotate_about_axis(c2, np.array([1, 2, 3], dtype=np.int64), sc)
+            if not _same(np, got, base, 1e-4):
+                v.append(("C15/rotate_about_axis/result-depends-on-spelling-of-angle", f"angle as {type(sc).__name__}"))
+        base = struc.rotate(c2, [ang, 0.5, -1.0])
+        got = struc.rotate(c2, np.array([ang, 0.5, -1.0], dtype=np.float32))
+        if not _same(np, got, base, 1e-4):
+            v.append(("C15/rotate/result-depends-on-spelling-of-angles", "angles as float32 array"))
+    return v
+
+
+_CCD_DONE = []
+
+
+def _install_ccd():
+    """dihedral_backbone() needs the component dictionary (amino acid names): a minimal one lives in fixtures/C15
+    (rebuilt deterministically if absent) and is installed through the public `info.set_ccd_path()`."""
+    if _CCD_DONE:
+        return
+    import numpy as np
+
+    import biotite.structure.info as info
+    import biotite.structure.io.pdbx as pdbx
+    from common import paths
+    path = os.path.join(paths.FIXTURES, "C15", "components.bcif")
+    if not os.path.exists(path):
+        three = sorted(["ALA", "ARG", "ASN", "ASP", "CYS", "GLN", "GLU", "GLY", "HIS", "ILE", "LEU", "LYS", "MET", "PHE", "PRO", "SER", "THR", "TRP", "TYR", "VAL"])
+        one = {"ALA": "A", "ARG": "R", "ASN": "N", "ASP": "D", "CYS": "C", "GLN": "Q", "GLU": "E", "GLY": "G", "HIS": "H", "ILE": "I", "LEU": "L",
+               "LYS": "K", "MET": "M", "PHE": "F", "PRO": "P", "SER": "S", "THR": "T", "TRP": "W", "TYR": "Y", "VAL": "V"}
+        ids = sorted(three + ["HOH"])
+        file = pdbx.BinaryCIFFile()
+        file["components"] = pdbx.BinaryCIFBlock({"chem_comp": pdbx.BinaryCIFCategory({
+            "id": np.array(ids), "type": np.array(["NON-POLYMER" if i == "HOH" else "L-PEPTIDE LINKING" for i in ids]),
+            "one_letter_code": np.array([one.get(i, "?") for i in ids]), "name": np.array(ids)})})
+        os.makedirs(os.path.dirname(path), exist_ok=True)
+        file.write(path)
+    info.set_ccd_path(path)
+    _CCD_DONE.append(True)
+
+
+def _o_misc(case):
+    """entry points no other stream calls: orient_principal_components, util.distance / matrix_rotate / vector_dot /
+    norm_vector, dihedral_backbone, centroid of every shape"""
+    import random as _random
+
+    import numpy as np
+
+    import biotite.structure as struc
+    import biotite.structure.util as U
+    r = _random.Random(case["seed"])
+    v = []
+    what = case["what"]
+    eps = EPS["f32"]
+    if what == "orient":
+        n = r.choice([3, 4, 6, 10, 25])
+        scale = [r.uniform(0.5, 20) for _ in range(3)]
+        R = np.array([[float(x) for x in row] for row in _quat_rotation(r)])
+        pts = (np.array([[r.gauss(0, 1) * scale[k] for k in range(3)] for _ in range(n)]) @ R.T + np.array([_fl(r, 50) for _ in range(3)])).astype(np.float32)
+        order = r.choice([None, (0, 1, 2), (2, 1, 0), (1, 0, 2), (1, 2, 0)])
+        as_atoms = r.random() < 0.4
+        arg = _mk_atoms(np, struc, pts, None) if as_atoms else pts
+        out = struc.orient_principal_components(arg) if order is None else struc.orient_principal_components(arg, order=order)
+        oc = np.asarray(out.coord if as_atoms else out, dtype=np.float64)
+        p64 = pts.astype(np.float64)
+        mag = float(np.abs(p64).max()) + 1
+        if oc.shape != p64.shape:
+            return [("C15/orient_principal_components/shape", f"{p64.shape} -> {oc.shape}")]
+        d0 = np.linalg.norm(p64[:, None] - p64[None], axis=-1)
+        d1 = np.linalg.norm(oc[:, None] - oc[None], axis=-1)
+        if float(np.abs(d0 - d1).max()) > 256 * eps * mag:
+            v.append(("C15/orient_principal_components/distance-not-preserved", f"max deviation {float(np.abs(d0 - d1).max()):.3g}"))
+        if float(np.abs(oc.mean(axis=0)).max()) > 256 * eps * mag:
+            v.append(("C15/orient_principal_components/not-centred", f"centroid {oc.mean(axis=0).tolist()}"))
+        if n >= 4:
+            t0 = float(np.dot(np.cross(p64[1] - p64[0], p64[2] - p64[0]), p64[3] - p64[0]))
+            t1 = float(np.dot(np.cross(oc[1] - oc[0], oc[2] - oc[0]), oc[3] - oc[0]))
+            if abs(t0) > 1e-2 * mag ** 3 * 1e-3 and abs(t0) > 1.0 and (t0 > 0) != (t1 > 0):
+                v.append(("C15/orient_principal_components/handedness-flipped", f"signed volume {t0!r} -> {t1!r}"))
+        var = oc.var(axis=0)
+        want = (0, 1, 2) if order is None else order
+        ranked = sorted(range(3), key=lambda k: -var[k])          # axis with the largest variance first
+        sv = sorted(var, reverse=True)
+        if min(sv[0] - sv[1], sv[1] - sv[2]) > 1e-3 * sv[0] and n > 3:
+            expect = [list(want).index(k) for k in range(3)]       # component k goes to axis index(want == k)
+            if ranked != expect:
+                v.append(("C15/orient_principal_components/components-not-in-requested-order", f"order={order}: variances along x,y,z = {var.tolist()}"))
+        cov = np.cov(oc.T) if n > 3 else None
+        if cov is not None and float(np.abs(cov - np.diag(np.diag(cov))).max()) > 1e-3 * float(np.diag(cov).max()) + 1e-4:
+            v.append(("C15/orient_principal_components/axes-not-principal", f"covariance {cov.tolist()}"))
+        return v
+    if what == "util":
+        shape = r.choice([(3,), (5, 3), (2, 4, 3)])
+        a = np.array(_farr(r, shape[:-1] if len(shape) > 1 else (1,), 30), dtype=np.float64).reshape(shape)
+        b = np.array(_farr(r, shape[:-1] if len(shape) > 1 else (1,), 30), dtype=np.float64).reshape(shape)
+        if not np.allclose(U.vector_dot(a, b), (a * b).sum(-1), rtol=1e-12):
+            v.append(("C15/util.vector_dot/differs-from-textbook", ""))
+        if not np.allclose(U.distance(a, b), np.sqrt(((a - b) ** 2).sum(-1)), rtol=1e-12):
+            v.append(("C15/util.distance/differs-from-textbook", ""))
+        c = a.copy()
+        U.norm_vector(c)
+        if not np.allclose(np.linalg.norm(c, axis=-1), 1.0, rtol=1e-12) or not np.allclose(c * np.linalg.norm(a, axis=-1)[..., None], a, rtol=1e-10):
+            v.append(("C15/util.norm_vector/not-a-unit-vector-of-the-same-direction", ""))
+        R = np.array([[float(x) for x in row] for row in _quat_rotation(r)])
+        rot = U.matrix_rotate(a, R)
+        want = np.einsum("ij,...j->...i", R, a)
+        if rot.shape != a.shape or not np.allclose(rot, want, rtol=1e-10, atol=1e-10):
+            v.append(("C15/util.matrix_rotate/differs-from-R-times-x", f"shape {a.shape} -> {rot.shape}"))
+        return v
+    if what == "centroid":
+        shape = r.choice([(1, 3), (4, 3), (2, 5, 3), (3, 1, 3)])
+        a = np.array(_farr(r, shape[:-1], 50), dtype=np.float32).reshape(shape)
+        got = np.asarray(struc.centroid(a), dtype=float)
+        want = a.astype(np.float64).mean(axis=-2)
+        if got.shape != want.shape or float(np.abs(got - want).max()) > 64 * eps * 51:
+            v.append(("C15/centroid/differs-from-mean", f"{got.tolist()} vs {want.tolist()}"))
+        at = _mk_atoms(np, struc, a, None)
+        if not np.array_equal(np.asarray(struc.centroid(at)), np.asarray(struc.centroid(a))):
+            v.append(("C15/centroid/atoms-object-differs-from-coordinates", ""))
+        return v
+    # ---- dihedral_backbone
+    _install_ccd()
+    nres = r.choice([1, 2, 3, 6])
+    stack = r.random() < 0.4
+    names, resid, resn, chain, coords = [], [], [], [], []
+    pos = np.array([_fl(r, 20) for _ in range(3)])
+    missing = r.choice([None, None, "N", "CA", "C"]) if nres > 2 else None
+    miss_res = r.randrange(1, nres - 1) if missing else None
+    hetero_before = r.random() < 0.3
+    if hetero_before:
+        names.append("O"); resid.append(0); resn.append("HOH"); chain.append("A"); coords.append(pos + 3.0)
+    for i in range(nres):
+        atoms_here = [("N", None), ("CA", None), ("C", None), ("O", None), ("CB", None)]
+        if r.random() < 0.5:
+            r.shuffle(atoms_here)              # the order of the atoms inside a residue must not matter
+        place = {}
+        for nm in ("N", "CA", "C"):
+            pos = pos + np.array(_unit(r)) * r.uniform(1.3, 1.6)
+            place[nm] = pos.copy()
+        place["O"] = place["C"] + np.array(_unit(r)) * 1.2
+        place["CB"] = place["CA"] + np.array(_unit(r)) * 1.5
+        for nm, _ in atoms_here:
+            if i == miss_res and nm == missing:
+                continue
+            names.append(nm); resid.append(i + 1); resn.append(r.choice(["ALA", "GLY", "LEU", "SER"])); chain.append("A"); coords.append(place[nm])
+    n = len(names)
+    c = np.array(coords, dtype=np.float32)
+    if stack:
+        R = np.array([[float(x) for x in row] for row in _quat_rotation(r)])
+        c = np.stack([c, (c.astype(np.float64) @ R.T + 5.0).astype(np.float32)])
+    atoms = _mk_atoms(np, struc, c, None)
+    atoms.atom_name = np.array(names); atoms.res_id = np.array(resid); atoms.chain_id = np.array(chain)
+    # one residue name per residue
+    rn = {}
+    atoms.res_name = np.array([rn.setdefault(i, nm) for i, nm in zip(resid, resn)])
+    try:
+        phi, psi, omg = struc.dihedral_backbone(atoms)
+    except Exception as e:  # noqa: BLE001
+        return [("C15/dihedral_backbone/raises", f"{type(e).__name__}: {e}")]
+    models = c if stack else c[None]
+    phi, psi, omg = (np.asarray(x, dtype=float).reshape(len(models), -1) for x in (phi, psi, omg))
+    off = 1 if hetero_before else 0          # one entry per residue of the array; a non-amino-acid residue gets NaN
+    if phi.shape[1] != nres + off:
+        return [("C15/dihedral_backbone/shape", f"{nres + off} residues, angles of shape {phi.shape}")]
+    if off and not all(math.isnan(x[m][0]) for x in (phi, psi, omg) for m in range(len(models))):
+        v.append(("C15/dihedral_backbone/angle-for-a-residue-that-is-no-amino-acid", f"{phi[:, 0].tolist()}"))
+    phi, psi, omg = phi[:, off:], psi[:, off:], omg[:, off:]
+    for m, cm in enumerate(models):
+        def at(res, nm):
+            for k in range(n):
+                if resid[k] == res and names[k] == nm:
+                    return cm[k].astype(np.float32)
+            return None
+        for i in range(1, nres + 1):
+            for label, arr, quad in (("phi", phi, ((i - 1, "C"), (i, "N"), (i, "CA"), (i, "C"))),
+                                     ("psi", psi, ((i, "N"), (i, "CA"), (i, "C"), (i + 1, "N"))),
+                                     ("omega", omg, ((i, "CA"), (i, "C"), (i + 1, "N"), (i + 1, "CA")))):
+                pts = [at(rs, nm) if 1 <= rs <= nres else None for rs, nm in quad]
+                got = arr[m][i - 1]
+                if any(p is None for p in pts):
+                    if not math.isnan(got):
+                        v.append((f"C15/dihedral_backbone/{label}-defined-although-an-atom-is-missing", f"residue {i}: {got!r}"))
+                    continue
+                want = float(struc.dihedral(*pts))
+                if math.isnan(got) or _angdiff(got, want) > 1e-4:
+                    v.append((f"C15/dihedral_backbone/{label}-differs-from-dihedral-of-the-backbone-atoms", f"model {m}, residue {i}: {got!r} vs {want!r}"))
+        if len(v) > 4:
+            break
+    if stack and not v:
+        # the second model is a rigid motion of the first
+        ok = np.isfinite(phi[0])
+        if float(np.nanmax(np.abs(np.angle(np.exp(1j * (phi[0][ok] - phi[1][ok])))), initial=0.0)) > 2e-2:
+            v.append(("C15/dihedral_backbone/not-invariant-under-rigid-motion", f"{phi[0].tolist()} vs {phi[1].tolist()}"))
+    return v
+
+
 def _o_pmeasure(case):
     """distance / angle / dihedral WITH a box == the non-periodic value on the unwrapped chain, and unchanged when any
     single atom is wrapped by a further lattice vector; index variants (periodic=True) == coordinate variants"""
@@ -2085,42 +2610,60 @@ def _o_unitcell(case):
 
 
 def _build_rpbc(case):
-    """AtomArray with bonds, wrapped coordinates, bookkeeping: (atoms, box, bonds, per-molecule index lists, adj_ok)"""
+    """AtomArray / AtomArrayStack with bonds (or chain ids), wrapped coordinates, bookkeeping:
+    (atoms, [box per model], bonds, per-molecule index lists, selection or None, [true unwrapped coords per molecule])"""
     import random as _random
 
     import numpy as np
 
     import biotite.structure as struc
-    box = _npf(case["box"], "f32")
-    bx = _box_fl(box)
-    det, invc = _inv_exact(bx)
-    hmin = min(_heights(bx))
-    per_mol, adj_ok = [], []
-    for mol in case["mols"]:
-        st = mol.get("stretch", 1.0)
-        base = mol["coords"][0]
-        true = [[base[k] + (c[k] - base[k]) * st for k in range(3)] for c in mol["coords"]]
-        # array neighbours OF THIS MOLECULE closer than half the smallest box height in the unwrapped molecule?
-        adj_ok.append(all(math.dist(true[i], true[i + 1]) < 0.5 * hmin * 0.98 for i in range(len(true) - 1)))
-        wrapped = []
-        for c, s in zip(true, mol["shift"]):
-            if case["wrap"] == "shift":
-                wrapped.append([c[k] + sum(s[r_] * float(box[r_][k]) for r_ in range(3)) for k in range(3)])
-            else:
-                f = [float(x) for x in _fracs(c, invc)]
-                wrapped.append([c[k] - sum(math.floor(f[r_]) * float(box[r_][k]) for r_ in range(3)) for k in range(3)])
-        per_mol.append(wrapped)
-    sizes = [len(m) for m in per_mol]
+    n_models = case.get("models", 1)
+    lrng = _random.Random(case.get("layout_seed", 0))
+    sizes = [len(m["coords"]) for m in case["mols"]]
     order = _layout(_random.Random(case.get("layout_seed", 0)), sizes, case.get("layout", "contiguous"))
     pos = {mj: i for i, mj in enumerate(order)}
-    coords = [per_mol[m][j] for m, j in order]
+    boxes, model_coords, trues = [], [], []
+    for k in range(n_models):
+        box = (_npf(case["box"], "f32").astype(np.float64) * (1.0 + 0.15 * k)).astype(np.float32)
+        bx = _box_fl(box)
+        det, invc = _inv_exact(bx)
+        per_mol = []
+        for mol in case["mols"]:
+            st = mol.get("stretch", 1.0)
+            base = mol["coords"][0]
+            true = [[base[t] + (c[t] - base[t]) * st for t in range(3)] for c in mol["coords"]]
+            if k == 0:
+                trues.append(true)
+            wrapped = []
+            for c, s0 in zip(true, mol["shift"]):
+                s_ = s0 if k == 0 else [lrng.randint(-2, 2) for _ in range(3)]
+                if case["wrap"] == "shift":
+                    wrapped.append([c[t] + sum(s_[r_] * float(box[r_][t]) for r_ in range(3)) for t in range(3)])
+                else:
+                    f = [float(x) for x in _fracs(c, invc)]
+                    wrapped.append([c[t] - sum(math.floor(f[r_]) * float(box[r_][t]) for r_ in range(3)) for t in range(3)])
+            per_mol.append(wrapped)
+        boxes.append(box)
+        model_coords.append([per_mol[m][j] for m, j in order])
     bonds = [(pos[(m, i)], pos[(m, j)], 1) for m, mol in enumerate(case["mols"]) for i, j in mol["bonds"]]
     molsets = [[pos[(m, j)] for j in range(sizes[m])] for m in range(len(sizes))]
-    atoms = struc.AtomArray(len(coords))
-    atoms.coord = np.array(coords, dtype=np.float32).reshape(-1, 3)
-    atoms.box = box
-    atoms.bonds = struc.BondList(len(coords), np.array(bonds, dtype=np.uint32).reshape(-1, 3))
-    return atoms, bx, bonds, molsets, adj_ok
+    n = len(order)
+    if n_models == 1:
+        atoms = struc.AtomArray(n)
+        atoms.coord = np.array(model_coords[0], dtype=np.float32).reshape(-1, 3)
+        atoms.box = boxes[0]
+    else:
+        atoms = struc.AtomArrayStack(n_models, n)
+        atoms.coord = np.array(model_coords, dtype=np.float32).reshape(n_models, -1, 3)
+        atoms.box = np.stack(boxes)
+    if case.get("no_bonds"):
+        atoms.chain_id = np.array([f"C{m}" for m, _ in order])
+    else:
+        atoms.bonds = struc.BondList(n, np.array(bonds, dtype=np.uint32).reshape(-1, 3))
+    sel = None
+    if "selection_p" in case:
+        sel = np.array([lrng.random() < case["selection_p"] for _ in range(n)], dtype=bool)
+    return atoms, boxes, bonds, molsets, sel, trues
 
 
 def _o_rpbc(case):
@@ -2128,32 +2671,57 @@ def _o_rpbc(case):
 
     import biotite.structure as struc
     v = []
-    atoms, bx, bonds, molsets, adj_ok = _build_rpbc(case)
+    atoms, boxes, bonds, molsets, sel, trues = _build_rpbc(case)
     eps = EPS["f32"]
-    cond = _cond(bx)
-    res = struc.remove_pbc(atoms)
-    mag = float(np.abs(atoms.coord).max()) + float(np.abs(atoms.box).max()) + float(np.abs(res.coord).max())
-    tol = 16 * eps * cond * mag
-    before, after = _fl64(atoms.coord), _fl64(res.coord)
-    det, invc = _inv_exact(bx)
-    hinv = max(1.0 / h for h in _heights(bx))
+    snap_coord, snap_box = atoms.coord.copy(), atoms.box.copy()
+    try:
+        res = _forked(lambda: struc.remove_pbc(atoms) if sel is None else struc.remove_pbc(atoms, selection=sel))
+    except ChildCrash as e:
+        return [("C15/remove_pbc/crash", f"{case['boxkind']} box: {e}")]
+    if not (np.array_equal(atoms.coord, snap_coord) and np.array_equal(atoms.box, snap_box)):
+        v.append(("C15/remove_pbc/modifies-its-argument", "input structure changed"))
+    if type(res) is not type(atoms) or res.coord.shape != atoms.coord.shape:
+        return v + [("C15/remove_pbc/shape", f"{type(atoms).__name__}{atoms.coord.shape} -> {type(res).__name__}{res.coord.shape}")]
     lay = case.get("layout", "contiguous")
-    for idxs, ok in zip(molsets, adj_ok):
-        loc = {g: k for k, g in enumerate(idxs)}
-        mb = [(loc[i], loc[j]) for i, j, _ in bonds if i in loc]
-        where = f"{case['boxkind']} box, {lay} layout, molecule at array positions {idxs}"
-        vv = _check_rpbc([before[i] for i in idxs], [after[i] for i in idxs], bx, mb, tol, where, array_adjacent=False, adj_ok=ok)
-        if lay != "contiguous":
-            vv = [(k + "/molecule-not-contiguous-in-array" if k == "C15/remove_pbc/bonded-atoms-not-at-minimum-image" else k, m) for k, m in vv]
-        v += vv
-        n = len(idxs)
-        cen = [sum(after[i][k] for i in idxs) / n for k in range(3)]
-        fc = [float(f) for f in _fracs(cen, invc)]
-        if not all(-tol * hinv * 4 <= f <= 1 + tol * hinv * 4 for f in fc):
-            v.append(("C15/remove_pbc/centroid-outside-box", f"{where}: centroid fractions {fc}"))
+    way = ("selection, " if sel is not None else "") + ("chains instead of bonds, " if case.get("no_bonds") else "") + (f"stack of {len(boxes)} models, " if len(boxes) > 1 else "")
+    c_in = atoms.coord.reshape(len(boxes), -1, 3)
+    c_out = res.coord.reshape(len(boxes), -1, 3)
+    for k, box in enumerate(boxes):
+        bx = _box_fl(box)
+        cond = _cond(bx)
+        hmin = min(_heights(bx))
+        mag = float(np.abs(c_in[k]).max()) + float(np.abs(box).max()) + float(np.abs(c_out[k]).max())
+        tol = 16 * eps * cond * mag
+        before, after = _fl64(c_in[k]), _fl64(c_out[k])
+        det, invc = _inv_exact(bx)
+        hinv = max(1.0 / h for h in _heights(bx))
+        if sel is not None and any(before[i] != after[i] for i in range(len(before)) if not sel[i]):
+            v.append(("C15/remove_pbc/unselected-atom-moved", f"{case['boxkind']} box, {way}{lay} layout"))
+        for idxs_all, true in zip(molsets, trues):
+            keep = [t for t, g in enumerate(idxs_all) if sel is None or sel[g]]
+            idxs = [idxs_all[t] for t in keep]
+            if not idxs:
+                continue
+            sub_true = [true[t] for t in keep]
+            ok = all(math.dist(sub_true[i], sub_true[i + 1]) < 0.5 * hmin * 0.98 for i in range(len(sub_true) - 1))
+            loc = {g: t for t, g in enumerate(idxs)}
+            mb = [(loc[i], loc[j]) for i, j, _ in bonds if i in loc and j in loc]
+            where = f"{case['boxkind']} box, {way}{lay} layout, model {k}, molecule at array positions {idxs}"
+            vv = _check_rpbc([before[i] for i in idxs], [after[i] for i in idxs], bx, mb, tol, where, array_adjacent=False, adj_ok=ok)
+            if lay != "contiguous":
+                vv = [(kk + "/molecule-not-contiguous-in-array" if kk == "C15/remove_pbc/bonded-atoms-not-at-minimum-image" else kk, m) for kk, m in vv]
+            v += vv
+            cen = [sum(after[i][t] for i in idxs) / len(idxs) for t in range(3)]
+            fc = [float(f) for f in _fracs(cen, invc)]
+            if not all(-tol * hinv * 4 <= f <= 1 + tol * hinv * 4 for f in fc):
+                v.append(("C15/remove_pbc/centroid-outside-box", f"{where}: centroid fractions {fc}"))
+        if len(v) > 6:
+            break
     # remove_pbc_from_coord on the first molecule alone: array neighbours at minimum image
-    sub = atoms.coord[molsets[0]]
-    r2 = struc.remove_pbc_from_coord(sub, atoms.box)
+    bx = _box_fl(boxes[0])
+    tol = 16 * eps * _cond(bx) * (float(np.abs(c_in[0]).max()) + float(np.abs(boxes[0]).max()) + float(np.abs(c_out[0]).max()))
+    sub = c_in[0][molsets[0]]
+    r2 = struc.remove_pbc_from_coord(sub, boxes[0])
     v += _check_rpbc(_fl64(sub), _fl64(r2), bx, [(i, i + 1) for i in range(len(sub) - 1)], tol, "remove_pbc_from_coord", array_adjacent=True)
     return v
 
